@@ -147,6 +147,17 @@ example : Disjoint exLayout exProg := by
   | t + 3, _ => simp [exProg] at hs2
   | 0, u + 3 | 1, u + 3 | 2, u + 3 => simp [exProg] at hs1
 
+/-- the steady hypotheses of `steady_calls` hold for target 3 of the example system: nobody writes it or its placeholder -/
+example : (∀ u, ¬ Writes exLayout exProg u 3) ∧ (∀ u, ¬ Writes exLayout exProg u (exLayout.plh 3)) := by
+  refine ⟨?_, ?_⟩ <;> intro u ⟨sec, hs, hw⟩ <;>
+  · match u with
+    | 0 | 1 | 2 =>
+      simp only [exProg, List.mem_cons, List.not_mem_nil, or_false] at hs
+      rcases hs with rfl | rfl | rfl | rfl <;>
+        simp only [writesOf, exLayout, if_true, List.mem_cons, List.not_mem_nil, or_false, Bool.false_eq_true, if_false] at hw <;>
+        first | (exfalso; exact hw) | (rcases hw with hw | hw <;> simp at hw) | simp at hw
+    | u + 3 => simp [exProg] at hs
+
 /-- a concrete interleaving with lock contention (thread 1 is scheduled while thread 0 holds the lock) -/
 example : ((run exLayout exProg [0, 1, 0, 1, 0, 0, 0, 0, 1, 2, 0, 0, 0, 0, 0, 0, 0, 0, 0, 0, 0, 0, 0, 0, 0, 0, 0, 0, 0] start).calls.map (·.2.2))
     = [some (3 * 7 + 1 + 5), some (4 * 7 + 3)] := by decide
